@@ -32,7 +32,7 @@ def model_graph_real(c, depth, tier):
     txt = re.sub(r'TIER = "\w+"', 'TIER = "%s"' % tier, txt)
     open(cfg, "w").write(txt)
     dump = os.path.join(wd, "sreal")
-    r = vlib.run_tlc("MCStreamReal", cfg=cfg, workers=4, timeout=3000, extra=["-dump", "dot,actionlabels", dump], tag="real")
+    r = vlib.run_tlc("MCStreamReal", cfg=cfg, workers=1, timeout=3000, extra=["-dump", "dot,actionlabels", dump], tag="real")
     vlib.tlc_must_succeed(r, "MCStreamReal")
     if r["violated"]:
         raise vlib.ToolError("the repaired stream MODEL at real constants violates its own properties (spec bug):\n" + vlib.tail(r["out"]))
@@ -173,7 +173,7 @@ def run_stream(c, focus):
         model_check_small(c, w=8, maxn=14)
     # (d) real constants: graph -> every edge replayed on the real code
     depth = 4 if c.thorough else 3
-    g = model_graph_real(c, depth, "quick" if not c.thorough else ("thorough" if focus == "C02" else "quick"))
+    g = model_graph_real(c, depth, ("c11t" if c.thorough else "c11") if focus == "C11" else ("thorough" if c.thorough else "quick"))
     script, expect, walks = scripts_from_graph(g, c.seed)
     spath = os.path.join(wd, "graph.script")
     open(spath, "w").write(script)
@@ -203,6 +203,12 @@ def run_stream(c, focus):
         recs, eps, r = validate_histories(c, trace, b, "random history (%s)" % b)
         traces += len(eps)
         c.add_events([e for e in recs if e["ev"] != "new"], key=lambda e: {k: v for k, v in e.items() if k not in ("st", "k")}, sample=1)
+        if focus == "C11":
+            trace = os.path.join(wd, "end64-%s.ndjson" % b)
+            vlib.run_harness(binary, ["stream-end64", "--seed", str(c.seed), "--tier", c.tier], out=trace)
+            recs, eps, r = validate_histories(c, trace, b, "2^64-block end (%s)" % b)
+            traces += len(eps)
+            c.add_events([e for e in recs if e["ev"] != "new"], key=lambda e: {k: v for k, v in e.items() if k not in ("st", "k")}, sample=1)
     c.cov["traces_validated_against_impl"] = traces
     c.cov["model_drift_events"] = drift_total
     c.cov["canary_rejected"] = True
